@@ -155,6 +155,9 @@ class Builder:
                 if self.autoload_pulses:
                     obj.update_gates(gate_context, inject_pulses=self.inject_pulses)
                     obj.update_gates(native_gates, inject_pulses=self.inject_pulses)
+                    # The gates just loaded may replace definitions that
+                    # memoized gate statements were built with.
+                    self.gate_memo = GateMemoizer()
             else:
                 raise JaqalError(f"Cannot process object {obj} at circuit level")
 
